@@ -144,6 +144,8 @@ type loopInfo struct {
 	headSt  *State // state at header after havoc+assume
 	preSt   *State
 	autoGhost map[string]string
+	localOnly map[string]bool          // components the loop writes only inside its own allocations
+	outerAllocs map[string][]*ssa.Alloc // ... or inside these allocations made before the loop
 }
 
 func (c *fnCtx) fresh(hint string) string {
